@@ -423,15 +423,24 @@ def anisotropy_parameter(theta, intensity, theta_ranges=None, mode='reject'):
         bounds = {'bounds': ([-1, -np.inf], [2, np.inf])}
     else:
         bounds = {}
+    # the optimizer has absolute tolerances, so fit data of order unity
+    scale = np.abs(intensity).max() if len(intensity) else 1.0
+    if scale == 0 or not np.isfinite(scale):
+        scale = 1.0
     try:
         # using 'trf' because default 'lm' is broken, see SciPy issue #21995
-        popt, pcov = curve_fit(PAD, theta, intensity, method='trf', **bounds)
+        popt, pcov = curve_fit(PAD, theta, intensity / scale, method='trf',
+                               **bounds)
         beta, amplitude = popt
         error_beta, error_amplitude = np.sqrt(np.diag(pcov))
+        amplitude *= scale
+        error_amplitude *= scale
         if mode == 'reject':
-            # physical range
-            if beta > 2 or beta < -1:
+            # physical range (within the accuracy of the fit)
+            if beta > 2 + 1e-6 or beta < -1 - 1e-6:
                 beta, error_beta = np.nan, np.nan
+            else:
+                beta = min(max(beta, -1.0), 2.0)
     except RuntimeError:
         beta, error_beta = np.nan, np.nan
         amplitude, error_amplitude = np.nan, np.nan
